@@ -62,3 +62,78 @@ mutant('C08', 'current-value-read-in-other-unit', DC, """(maximum_electric_curre
                 (self.driving_torque/maximum_torque) + no_load_electric_current""", """no_load_electric_current + (self.driving_torque/maximum_torque) *
                 (maximum_electric_current - no_load_electric_current)""", 'C08')
 benign('C08', 'threshold-cross-multiplied', DC, 'if abs(self.pwm) <= pwm_min:', 'if abs(self.pwm)*self.maximum_electric_current <= self.no_load_electric_current:', nth=0)
+
+UN = 'gearpy/units/units.py'
+UB = 'gearpy/units/unit_base.py'
+TO_BODY = """            target_value = self.__value*self.__UNITS[self.__unit] / \\
+                self.__UNITS[target_unit]"""
+
+# ------------------------------------------------------------------------------------------ C05
+mutant('C05', 'table-gcm2', UN, "'gcm^2': 1e-7,", "'gcm^2': 1e-6,", 'C05.table')
+mutant('C05', 'table-rph-one-60', UN, "'rph': 2*pi/60/60", "'rph': 2*pi/60", 'C05.table')
+mutant('C05', 'table-kgfcm', UN, "'kgfcm': 9.80665e-2,", "'kgfcm': 9.80655e-2,", 'C05.table')
+mutant('C05', 'table-mNcm', UN, "'mNcm': 1e-5,", "'mNcm': 1e-4,", 'C05.table')
+mutant('C05', 'table-arcsec', UN, "'arcsec': pi/180/60/60,", "'arcsec': pi/180/60/6,", 'C05.table')
+mutant('C05', 'table-hour', UN, "'hour': 60*60,", "'hour': 60*6,", 'C05.table')
+mutant('C05', 'table-GPa', UN, "'GPa': 1e9", "'GPa': 1e8", 'C05.table')
+mutant('C05', 'to-inverted-ratio', UN, TO_BODY, """            target_value = self.__value*self.__UNITS[target_unit] / \\
+                self.__UNITS[self.__unit]""", 'C05.to', nth=3)
+mutant('C05', 'to-inplace-forgets-unit', UN, """            self.__value = target_value
+            self.__unit = target_unit
+            return self""", """            self.__value = target_value
+            return self""", 'C05.to', nth=5)
+mutant('C05', 'to-inplace-returns-copy-kind', UN, "return Torque(value=target_value, unit=target_unit)", "return Force(value=target_value, unit='N')", 'C05.to')
+mutant('C05', 'to-copy-mutates', UN, """        else:
+            return Length(value=target_value, unit=target_unit)""", """        else:
+            self.__value = target_value
+            return Length(value=target_value, unit=target_unit)""", 'C05.to')
+mutant('C05', 'angle-to-stale-copy', UN, """        if inplace:
+            self.__value = converted.value
+            self.__unit = converted.unit
+            return self
+        else:
+            return Angle(""", """        if inplace:
+            self.__unit = converted.unit
+            return self
+        else:
+            return Angle(""", 'C05.to')
+mutant('C05', 'eq-tolerance-sign', UB, ") < COMPARISON_TOLERANCE", ") < -COMPARISON_TOLERANCE", 'C05.cmp')
+mutant('C05', 'ge-strict', UB, ").value >= -COMPARISON_TOLERANCE", ").value > -COMPARISON_TOLERANCE", 'C05.cmp')
+mutant('C05', 'lt-same-unit-le', UB, "return self.value < other.value", "return self.value <= other.value", 'C05.cmp')
+mutant('C05', 'gt-no-conversion', UB, """            return self.value - other.to(
+                self.unit
+            ).value > COMPARISON_TOLERANCE""", """            return self.value - other.value > COMPARISON_TOLERANCE""", 'C05.cmp')
+mutant('C05', 'tolerance-huge', UB, "COMPARISON_TOLERANCE = 1e-12", "COMPARISON_TOLERANCE = 1e-2", 'C05.cmp')
+mutant('C05', 'ne-compares-units-only', UB, "return self.value != other.value", "return False", 'C05.cmp')
+benign('C05', 'to-reassociate', UN, TO_BODY, """            target_value = self.__UNITS[self.__unit]*self.__value / \\
+                self.__UNITS[target_unit]""", nth=2)
+benign('C05', 'table-equivalent-spelling', UN, "'rph': 2*pi/60/60", "'rph': pi/1800")
+benign('C05', 'table-equivalent-decimal', UN, "'kgfcm': 9.80665e-2,", "'kgfcm': 0.0980665,")
+benign('C05', 'eq-operands-swapped', UB, """            return fabs(
+                self.value - other.to(self.unit).value
+            ) < COMPARISON_TOLERANCE""", """            return fabs(
+                other.to(self.unit).value - self.value
+            ) < COMPARISON_TOLERANCE""")
+
+# ------------------------------------------------------------------------------------------ C06
+mutant('C06', 'speed-time-nonSI-unit', UN, """            return AngularPosition(
+                value=self.to('rad/s').value*other.to('sec').value,
+                unit='rad'
+            )""", """            return AngularPosition(
+                value=self.to('rad/s').value*other.to('ms').value,
+                unit='rad'
+            )""", 'C06.si-semantics', nth=0)
+mutant('C06', 'torque-inertia-wrong-kind', UN, "return AngularAcceleration(\n                value=self.to('Nm').value/other.to('kgm^2').value,", "return AngularSpeed(\n                value=self.to('Nm').value/other.to('kgm^2').value,", 'C06')
+mutant('C06', 'torque-length-swapped', UN, "value=self.to('Nm').value/other.to('m').value,", "value=other.to('m').value/self.to('Nm').value,", 'C06.si-semantics')
+mutant('C06', 'ratio-missing-conversion', UN, "return self.__value/other.to(self.__unit).value", "return self.__value/other.value", 'C06.si-semantics', nth=4)
+mutant('C06', 'add-missing-conversion', UB, "value=self.value + other.to(self.unit).value,", "value=self.value + other.value,", 'C06.si-semantics')
+mutant('C06', 'sub-is-add', UB, "value=self.value - other.to(self.unit).value,", "value=self.value + other.to(self.unit).value,", 'C06.si-semantics')
+multi('C06', 'torque-accepts-surface', 'mutant', [
+    (UN, "            InertiaMoment | Length | Torque | float | int", "            InertiaMoment | Length | Surface | Torque | float | int"),
+    (UN, "        elif isinstance(other, Length):\n            return Force(", "        elif isinstance(other, Length | Surface):\n            return Force(")], 'C06')
+mutant('C06', 'force-surface-unit-kPa', UN, "value=self.to('N').value/other.to('m^2').value,\n                unit='Pa'", "value=self.to('N').value/other.to('m^2').value,\n                unit='kPa'", 'C06.si-semantics')
+mutant('C06', 'mul-number-wrong-unit', UN, "return Torque(value=self.__value*other, unit=self.__unit)", "return Torque(value=self.__value*other, unit='Nm')", 'C06', nth=0)
+mutant('C06', 'length-length-drops-conversion', UN, "value=self.to('m').value*other.to('m').value,", "value=self.to('m').value*other.value,", 'C06.si-semantics')
+mutant('C06', 'time-mul-speed-removed', UN, "if not isinstance(other, Time | float | int):", "if not isinstance(other, float | int):", 'C06.required', nth=0)
+benign('C06', 'commute-product', UN, "value=self.to('m').value*other.to('m').value,", "value=other.to('m').value*self.to('m').value,")
+benign('C06', 'convert-self-instead', UN, "return self.__value/other.to(self.__unit).value", "return self.to(other.unit).value/other.value", nth=4)
